@@ -333,6 +333,7 @@ fn shutdown_points(c: &mut Case, scale: Scale) {
             }
         }
         c.l.state(mix(w.hist, s));
+        c.l.sig(mix(mix(seed, s), 0x5d));
         s += stride;
     }
     c.l.sig(mix(crate::rng::hash_bytes(14, &case.wire[..case.wire.len().min(200)]), u64::from(pipelined)));
@@ -423,7 +424,7 @@ pub fn run(ctx: &Ctx, evidence: Option<&PathBuf>) -> i32 {
          Ready never while a token of that runner lives, Pending never without one; after the last drop the poll in progress returns Ready or the waker it registered is woken and the next poll is Ready; clone tokens do not delay the original. \
          Run B: for scripted keep-alive connections (1..3 requests, C07 handler family; one third with a pipelining client and read-to-end handlers) shutdown is requested at (up to 160 evenly spaced of) every executor step 0..N+1 of the clean run: no handler invocation begins in a poll after the request; every started request satisfies the full C07 oracle incl. its epilogue; \
          with no handler running no further transport read is issued; Token::run returns (quiescent-unfinished = not woken); the shutdown future becomes Ready only after Token::run returned and is woken for it. \
-         Run C: 1..8 threads drop tokens after random spins while a thread blocks on the shutdown future (quiescence detector = lost wake-up; Ready with an undropped token = early). distinct_nontrivial = distinct hook histories + distinct shutdown bases (set).",
+         Run C: 1..8 threads drop tokens after random spins while a thread blocks on the shutdown future (quiescence detector = lost wake-up; Ready with an undropped token = early). distinct_nontrivial = distinct hook histories + distinct (connection, shutdown step) executions judged (set).",
         &["uses the add-only cfg(fastcgi_server_verif) scheduling hook", "thread interleavings are whatever the OS / TSan / Miri scheduler produces; the hook-forced windows carry the verdict"],
         false,
         evidence,
